@@ -509,6 +509,7 @@ impl Gen {
         match self.rng.below(12) {
             0 => {
                 top.pop();
+                return list(top);
             }
             1 => top.push(int(1)),
             2 => top[1] = int(5),
@@ -645,7 +646,7 @@ fn corpus_case(idx: u64) -> Option<(Cell, Cell)> {
         ("(define-syntax m (syntax-rules () ((_ (x x* ...) (y y* ...)) (+ (* x y) (* x* y*) ...))))", "(m (10 20 30) (10 20 30))"),
         ("(define-syntax m (syntax-rules () ((_ (x x* ...) (y y* ...)) (+ (* x y) (* x* y*) ...))))", "(m (10 20 30 40) (10 20 30))"),
         ("(define-syntax m (syntax-rules (else =>) ((_ (else r1 r2 ...)) (begin r1 r2 ...)) ((_ (t => r) c ...) (let ((tmp t)) (if tmp (r tmp) (m c ...))))))", "(m (1 => f) (else 2 3))"),
-        ("(define-syntax m (syntax-rules ___ () ((_ (n v) ___ b1 b2 ___) ((lambda (n ___) b1 b2 ___) v ___))))", "(m (x 1) (y 2) (+ x y) 5)"),
+        ("(define-syntax m (syntax-rules ___ () ((_ ((n v) ___) b1 b2 ___) ((lambda (n ___) b1 b2 ___) v ___))))", "(m ((x 1) (y 2)) (+ x y) 5)"),
         ("(define-syntax m (syntax-rules () ((_ x (a ... b c)) (x a ... / b c)) ((_ y z) (fallback y z))))", "(m 0 (1 2))"),
         ("(define-syntax m (syntax-rules () ((_ (a b ...) ...) (a ...))))", "(m (1 2) (3))"),
     ];
@@ -653,7 +654,9 @@ fn corpus_case(idx: u64) -> Option<(Cell, Cell)> {
 }
 
 fn worker(stream: &str, n: u64, start: u64) {
-    silence_panics();
+    if std::env::var("VERIF_LOUD").is_err() {
+        silence_panics();
+    }
     let seed: u64 = std::env::var("VERIF_SEED").ok().and_then(|s| s.parse().ok()).unwrap_or(1);
     let out = std::io::stdout();
     let mut out = out.lock();
@@ -695,6 +698,8 @@ fn worker(stream: &str, n: u64, start: u64) {
                     let u = g.use_form(&pats);
                     (d, u)
                 };
+                // an atom is not a macro use (the Vm would evaluate it to itself)
+                let u = if u.is_pair() { u } else { list(vec![sym("m")]) };
                 if vm.is_none() || idx % 500 == 0 {
                     vm = Some(Vm::new());
                 }
@@ -713,16 +718,17 @@ fn worker(stream: &str, n: u64, start: u64) {
 fn supervise(stream: &str, n: u64) {
     let exe = std::env::current_exe().unwrap();
     let budget = Duration::from_millis(
-        std::env::var("VERIF_CASE_MS").ok().and_then(|s| s.parse().ok()).unwrap_or(3000),
+        std::env::var("VERIF_CASE_MS").ok().and_then(|s| s.parse().ok()).unwrap_or(500),
     );
     let out = std::io::stdout();
     let mut out = std::io::BufWriter::new(out.lock());
     let mut start = 0u64;
     let mut done = 0u64;
+    let mut hangs = 0u64;
     'outer: loop {
         let mut child = Command::new("sh")
             .arg("-c")
-            .arg("ulimit -v 3000000; exec \"$0\" \"$@\"")
+            .arg("ulimit -v 700000; exec \"$0\" \"$@\"")
             .arg(&exe)
             .arg("worker")
             .arg(stream)
@@ -781,11 +787,18 @@ fn supervise(stream: &str, n: u64) {
                             }
                             done += 1;
                             start = done;
+                            hangs += 1;
+                            if hangs >= 20 {
+                                // enough evidence; do not spend the check's time budget on more
+                                break 'outer;
+                            }
                             continue 'outer;
                         }
                         None => {
-                            // died between cases: give up on this stream (reported by the caller as a short stream)
-                            break 'outer;
+                            // the worker died between cases: a harness fault, not an observation
+                            out.flush().unwrap();
+                            eprintln!("transform harness: worker died between cases at index {}", done);
+                            std::process::exit(3);
                         }
                     }
                 }
